@@ -42,6 +42,7 @@ def run (args : List String) : String :=
     if (Names.clashes a).isEmpty then "ok" else "clash"
   | "gen.pkg" :: _ => "ok"
   | "gen.objects" :: _ => "ok"   -- object references are not modelled: decided by the scenario's oracle alone
+  | "gen.objectsx" :: _ => "known-weakness"
   | "gen.pkgx" :: _ => "known-weakness"
   | "gen.call" :: _ :: _ :: retH :: parH :: toks =>
     match sigOfHex parH with
